@@ -36,17 +36,8 @@ fn weight(id: usize) -> f32 {
     }
 }
 
-thread_local! {
-    /// fault injection: the node with this id panics once when it is next processed
-    static TRIP: std::cell::Cell<Option<usize>> = const { std::cell::Cell::new(None) };
-}
-
 impl Node for ProbeNode {
     fn process(&mut self, inputs: &[Input], output: &mut [Buffer]) {
-        if TRIP.with(|t| t.get()) == Some(self.id) {
-            TRIP.with(|t| t.set(None));
-            panic!("injected node failure");
-        }
         let call = *self.call.borrow();
         let mut rec = Rec { node: self.id, call, own_ptr: output.as_ptr() as usize, inputs: Vec::new() };
         let mut sum = weight(self.id);
@@ -401,37 +392,6 @@ fn nested_case(c: &Case) -> Result<(), Bad> {
     Ok(())
 }
 
-/// Unwinding: node `victim` panics during the first process call; the host catches that and goes on
-/// using the same processor and graph. Every later call must again run exactly the upstream
-/// subgraph, inputs first, one input per incoming edge.
-fn panic_case(c: &Case, victim: usize) -> Result<(), Bad> {
-    let e = expect(c);
-    let mut b = build_graph(c);
-    let mut p = Processor::<G1>::with_capacity(c.n);
-    let out_ix = b.ix[c.out];
-    *b.call.borrow_mut() = 1;
-    TRIP.with(|t| t.set(Some(victim)));
-    let first = catch(|| p.process(&mut b.g, out_ix));
-    TRIP.with(|t| t.set(None));
-    if let Err(pn) = &first {
-        if !pn.contains("injected node failure") {
-            return Err(("graph.panic".into(), format!("process panicked: {pn}")));
-        }
-    }
-    for call in 2..=3u32 {
-        *b.call.borrow_mut() = call;
-        b.log.borrow_mut().clear();
-        if let Err(pn) = catch(|| p.process(&mut b.g, out_ix)) {
-            return Err(("graph.panic".into(), format!("after node {victim} panicked once in an earlier call (caught): process panicked: {pn}")));
-        }
-        let ptrs: Vec<(usize, usize)> = b.ix.iter().map(|&i| (b.g[i].buffers.as_ptr() as usize, b.g[i].buffers.len())).collect();
-        let out_val = b.g[out_ix].buffers[0][0];
-        let log = b.log.borrow().clone();
-        check_call(c, &e, &log, &ptrs, out_val, call).map_err(|(k, m)| (k, format!("call {call} on the same processor after node {victim} panicked once in call 1 (caught): {m}")))?;
-    }
-    Ok(())
-}
-
 /// Run `c` on fresh processors that have first processed `hist` (results of the history ignored):
 /// the property quantifies over repeated process calls on the same processor, so a violation may
 /// need what the processor did before.
@@ -640,11 +600,6 @@ fn main() {
             let _guard_scope = guard::scoped(&v.to_string());
             ctx.finish_replay(bufcount_case(&cs).map(|e| e.1));
         }
-        if v["victim"].is_u64() {
-            let c = Case::from_json(&v).unwrap_or_else(|| std::process::exit(2));
-            let _guard_scope = guard::scoped(&v.to_string());
-            ctx.finish_replay(panic_case(&c, v["victim"].as_u64().unwrap_or(0) as usize).err().map(|e| format!("{}: {}", e.0, e.1)));
-        }
         if v["nested"] == true {
             let c = Case::from_json(&v).unwrap_or_else(|| std::process::exit(2));
             let _guard_scope = guard::scoped(&v.to_string());
@@ -658,7 +613,7 @@ fn main() {
         let hist: Vec<Case> = v["history"].as_array().map(|a| a.iter().filter_map(Case::from_json).collect()).unwrap_or_default();
         ctx.finish_replay(run_with_history(&hist, &c));
     }
-    ctx.rule("every directed multigraph on n<=3 nodes with multiplicity 0..2 per ordered pair (self pairs included), every digraph with loops on 4 nodes (thorough: every loop-free digraph on 5 nodes) ; every edge insertion order (sequences of up to 6 / 5 / 4 edges over all ordered pairs of 2 / 3 / 4 nodes, parallel edges need not be adjacent) x every output node x container in {Graph, StableGraph, StableGraph with vacancies before/between/after/all (dummy nodes wired in and removed)} x 2 consecutive process calls (60 for the scale-probe graphs); every multigraph on <=3 nodes also nested in a GraphNode of a one-node outer graph (node 0 declared as an input port that nothing feeds), same oracle on the inner log, and every such multigraph x every node as the victim that panics once during the first call (caught by the host), followed by two more calls on the same processor and graph under the same oracle; all on a processor reused across a whole chunk of the enumeration (256 graphs x outputs x containers; a violation's replay artefact carries the shortest suffix of that history with which it reproduces on a fresh processor); instrumented nodes log (node, call, own buffer ptr, per input ptr/len/value/call#); oracle: independent reverse reachability, multiset of in-edges by buffer identity, no self-alias, topological order and functional evaluation when the upstream subgraph is acyclic, sources()/sinks() == existing nodes without in/out edges; plus scale probes: nodes with 0, 1, 2, 255, 256, 257 and 1000 output buffers in every combination on a 3-node graph; 12 structured families (chains, stars, rings, complete DAG / digraph, tree, double edges, ...) on 5..=9 nodes; 8 structured families (chain, reversed chain, stars, ring, binary tree, bidirectional chain, chain with a fan-out from node 0) on 33, 64, 255, 256, 257 nodes (thorough: also 31, 32, 100, 300) x output node in {0, 1, n/2, n-2, n-1} x {Graph, StableGraph}, 60 calls each; chains and stars on 65535, 65536, 65537 nodes (Graph, and a StableGraph chain with its first slot vacant) under a linear-time form of the same oracle, 2 calls each; non-trivial = at least one edge, distinct by (graph, output, container)");
+    ctx.rule("every directed multigraph on n<=3 nodes with multiplicity 0..2 per ordered pair (self pairs included), every digraph with loops on 4 nodes (thorough: every loop-free digraph on 5 nodes) ; every edge insertion order (sequences of up to 6 / 5 / 4 edges over all ordered pairs of 2 / 3 / 4 nodes, parallel edges need not be adjacent) x every output node x container in {Graph, StableGraph, StableGraph with vacancies before/between/after/all (dummy nodes wired in and removed)} x 2 consecutive process calls (60 for the scale-probe graphs); every multigraph on <=3 nodes also nested in a GraphNode of a one-node outer graph (node 0 declared as an input port that nothing feeds), same oracle on the inner log on a processor reused across a whole chunk of the enumeration (256 graphs x outputs x containers; a violation's replay artefact carries the shortest suffix of that history with which it reproduces on a fresh processor); instrumented nodes log (node, call, own buffer ptr, per input ptr/len/value/call#); oracle: independent reverse reachability, multiset of in-edges by buffer identity, no self-alias, topological order and functional evaluation when the upstream subgraph is acyclic, sources()/sinks() == existing nodes without in/out edges; plus scale probes: nodes with 0, 1, 2, 255, 256, 257 and 1000 output buffers in every combination on a 3-node graph; 12 structured families (chains, stars, rings, complete DAG / digraph, tree, double edges, ...) on 5..=9 nodes; 8 structured families (chain, reversed chain, stars, ring, binary tree, bidirectional chain, chain with a fan-out from node 0) on 33, 64, 255, 256, 257 nodes (thorough: also 31, 32, 100, 300) x output node in {0, 1, n/2, n-2, n-1} x {Graph, StableGraph}, 60 calls each; chains and stars on 65535, 65536, 65537 nodes (Graph, and a StableGraph chain with its first slot vacant) under a linear-time form of the same oracle, 2 calls each; non-trivial = at least one edge, distinct by (graph, output, container)");
     // enumerate
     // (node count, multiplicity matrix, explicit edge insertion order if any)
     let mut graphs: Vec<(usize, Vec<u8>, Option<Vec<(usize, usize)>>)> = Vec::new();
@@ -766,15 +721,6 @@ fn main() {
                             let mut cj = c.to_json();
                             cj["nested"] = json!(true);
                             ctx.violation(&k, cj, msg.clone(), Some(&|| nested_case(&c).err().map(|_| msg.clone())));
-                        }
-                        for victim in 0..*n {
-                            evals.fetch_add(1, Relaxed);
-                            calls.fetch_add(3, Relaxed);
-                            if let Err((k, msg)) = panic_case(&c, victim) {
-                                let mut cj = c.to_json();
-                                cj["victim"] = json!(victim);
-                                ctx.violation(&k, cj, msg.clone(), Some(&|| panic_case(&c, victim).err().map(|_| msg.clone())));
-                            }
                         }
                     }
                     match run_case(&c, &mut p1, &mut p2) {
